@@ -335,7 +335,7 @@ int extract_trigger_args(char **pargs, char **prets, char *trigger)
 				if (!strncasecmp(pos, "arg", 3) || !strncasecmp(pos, "fparg", 5))
 					args = strjoin(args, pos, ",");
 				if (!strncasecmp(pos, "retval", 6))
-					rval = "retval";
+					rval = strjoin(rval, pos, ",");
 				if (!strncasecmp(pos, "auto-args", 9))
 					auto_args = true;
 			}
@@ -347,9 +347,11 @@ int extract_trigger_args(char **pargs, char **prets, char *trigger)
 				free(args);
 			}
 			if (rval) {
-				xasprintf(&act, "%s@retval", name);
+				/* keep the format: the reader has to lay the payload out as libmcount did */
+				xasprintf(&act, "%s@%s", name, rval);
 				retspec = strjoin(retspec, act, ";");
 				free(act);
+				free(rval);
 			}
 			if (auto_args) {
 				argspec = strjoin(argspec, name, ";");
